@@ -58,7 +58,8 @@ def main():
             print(summary[-1], flush=True)
     finally:
         sh("git -C /repo worktree remove --force %s" % WT)
-        # evidence files were overwritten by mutated runs: restore them from a clean run by the caller
+        # runs against a mutated worktree regenerate lean/CoxeterVerif/Generated from it: put /repo's tables back
+        sh("/venv/bin/python harness/translate_all.py", cwd=VERIF, env=dict(os.environ, PYTHONPATH="/repo", COXETER_REPO="/repo"))
     return 0
 
 
